@@ -38,6 +38,7 @@ RULE = ('event sequences: context objects created (possibly long before use, re-
 EXHAUSTIVE = {'quick': False, 'thorough': False}
 ASSUMPTIONS = ['exit by exception is exercised by calling __exit__ with exception info (what the with-statement does)']
 TRUSTED_BASE = ['harness/tprog.py']
+TRUSTED_BASE = TRUSTED_BASE + ['harness/engine_logic.py (reading of the conditions, context transitions, loop skeletons and class method surfaces of tensor.py / nn/modules.py, Generated/EngineLogic.lean; the Boolean translation is validated on every run by the `logic` family of C07)']
 OPS = ['add', 'mul', 'neg', 'sum', 'clone', 'self2', 'reshape']
 
 
